@@ -242,7 +242,10 @@ def _parse_raw_data(region_str):
                                                params_str, raw_meta, line))
 
             # reset composite metadata after the composite region ends
-            if '||' not in line and composite_meta:
+            # (ignoring any '||' inside the text field)
+            line_notext = re.sub(r'text\s*=\s*({.*?}|".*?"|\'.*?\')', '',
+                                 line)
+            if '||' not in line_notext and composite_meta:
                 composite_meta = {}
 
     return region_data
